@@ -155,7 +155,7 @@ PROPS = {
             "optional_classes": ["scalar_and_vector_differ_only_in_zero_sign"]},
     "C17": {"id": "C17", "env_fuzz": (7, 1), "source": "c17.cpp", "files": INT_VEC_FILES + [VEC + "Vectors.hpp", "include/avel/Misc.hpp"], "min_configs": {"quick": 8, "thorough": 30}},
     "C18": {"id": "C18", "fuzz": lambda inc: [C.Config([], std="c++11"), C.Config([], std="c++17"), C.Config(["SSE2"])], "fuzz_runs": 50000, "source": "c18.cpp", "files": ["include/avel/Aligned_allocator.hpp"], "min_configs": {"quick": 6, "thorough": 10}, "configs": cfgs_alloc, "ub_is_violation": True,
-            "max_success": {"quick": 500, "thorough": 20000}},
+            "max_success": {"quick": 500, "thorough": 2000}},
     "C20": {"id": "C20", "full_O0": True, "source": "c20.cpp", "files": ["include/avel/Cache.hpp"], "min_configs": {"quick": 6, "thorough": 12}, "configs": cfgs_prefetch, "max_success": {"quick": 3000, "thorough": 100000},
             "optional_classes": []},
     "C19": {"id": "C19", "custom": _c19_run, "custom_replay": _c19_replay, "files": []},
